@@ -43,8 +43,10 @@ Definition times_F (m : model) : list F :=
   let '(t0, _, h) := m_times m in
   map (fun i => of_Q O (t0 + inject_Z (Z.of_nat i) * h)%Q) (seq 0 (num_times m)).
 
-(* runner.run(parameters) with solver euler / rk4 *)
-Definition run_model (m : model) (s : solver) (p : env) : result run_result :=
+(* runner.run(parameters) with solver euler / rk4.  [p] is what the (possibly frozen) model graph
+   sees; [pd] is what the derived-output functions see (run_model: do_base_params updated with the
+   run-time parameters - the derived-output graph is not frozen) *)
+Definition run_model_gen (m : model) (s : solver) (p pd : env) : result run_result :=
   do b <- prepare_structural m;
   let '(t0, _, h) := m_times m in
   let n := num_times m in
@@ -56,7 +58,9 @@ Definition run_model (m : model) (s : solver) (p : env) : result run_result :=
   let ts := times_F m in
   let flows := zip_with (fun t y => get_flow_rates O m b p t y) ts outputs in
   let cvs := map (fun ke => (fst ke, zip_with (fun t y => eval O p t (vclean O y) (snd ke)) ts outputs)) (m_cvs m) in
-  do d <- derived_outputs O m p n outputs flows cvs;
+  do d <- derived_outputs O m pd n outputs flows cvs;
   Ok {| rr_outputs := outputs; rr_derived := d |}.
+
+Definition run_model (m : model) (s : solver) (p : env) : result run_result := run_model_gen m s p p.
 
 End Numeric.
